@@ -1,5 +1,7 @@
 #![allow(dead_code)]
 mod dump;
+mod enc;
+mod gen_enc;
 mod gen_c06;
 mod gen_c07;
 mod gen_c08;
@@ -21,8 +23,22 @@ fn main() {
             dump::dump();
             return;
         }
+        Some("enc") => {
+            // dmh enc <modes> <maskhex> <macro> <fnc1> <eci|-> <inputhex>: replay one encoder case
+            let c = enc::Case {
+                modes: args[2].parse().unwrap(),
+                mask: u64::from_str_radix(&args[3], 16).unwrap(),
+                macros: args[4] == "1",
+                fnc1: args[5] == "1",
+                eci: if args[6] == "-" { None } else { Some(args[6].parse().unwrap()) },
+                data: util::unhex(&args[7]),
+            };
+            let o = enc::run_case(&c);
+            writeln!(out, "{}", o.resp).unwrap();
+        }
         Some("gen") => match args.get(2).map(|s| s.as_str()) {
             Some("c12") => gen_c12::gen(&mut out, seed, thorough),
+            Some(w @ ("c01" | "c02" | "c13" | "c16" | "c18" | "c19" | "c11")) => gen_enc::gen(&mut out, w, seed, thorough),
             Some("c08") => gen_c08::gen(&mut out, seed, thorough),
             Some("c07") => gen_c07::gen(&mut out, seed, thorough),
             Some("c06") => gen_c06::gen(&mut out, seed, thorough),
